@@ -315,13 +315,11 @@ class Stream:
         self._t_max = self._t_supply
         self._t_min_star = self._t_min - self._dt_cont
         self._t_max_star = self._t_max - self._dt_cont
-        if self._type is None:
-            self._type = StreamType.Hot.value
+        self._type = StreamType.Hot.value
 
     def _set_cold_stream_min_max_temperatures(self):
         self._t_min = self._t_supply
         self._t_max = self._t_target
         self._t_min_star = self._t_min + self._dt_cont
         self._t_max_star = self._t_max + self._dt_cont
-        if self._type is None:
-            self._type = StreamType.Cold.value
+        self._type = StreamType.Cold.value
